@@ -7,7 +7,7 @@ import numpy as np
 from hypothesis import strategies as st
 
 from .. import gen
-from ..harness import Sub, Violation, Inconclusive, crash_is_violation, run_world
+from ..harness import Sub, Violation, Inconclusive, crash_is_violation, run_world, interpreted_kernels
 from ..oracles import bspl, advect
 
 PROPERTY = "C12"
@@ -253,6 +253,23 @@ def predicate(c):
         with crash_is_violation("C12:step", "PoloidalAdvection.step (explicit)"):
             got = f0.copy()
             adv.step(got, dt, phis, c["v"])
+        # the step works in place on whatever array it is handed: a slice of a larger block, a Fortran-ordered array
+        # (interpreted kernels only).  Same data, same operator, so the same result as for the C-contiguous copy.
+        if interpreted_kernels():
+            blk = np.full(f0.shape + (2,), np.nan)
+            blk[..., 1] = f0
+            ff = np.asfortranarray(f0.copy())
+            with crash_is_violation("C12:step", "PoloidalAdvection.step (explicit, f given as a view)"):
+                adv.step(blk[..., 1], dt, phis, c["v"])
+                adv.step(ff, dt, phis, c["v"])
+            vt = 1e-12 * (float(np.abs(f0).max()) + 1e-300)
+            for what, arr in (("a slice of a larger block", blk[..., 1]), ("a Fortran-ordered array", ff)):
+                if not (np.abs(arr - got) <= vt).all():
+                    raise Violation("C12:%s:view" % labels[0], "step on %s leaves max |f_view - f_contiguous| = %.3e (result not "
+                                    "stored in the array handed over?)" % (what, np.nanmax(np.abs(arr - got))))
+            if not np.isnan(blk[..., 0]).all():
+                raise Violation("C12:%s:view" % labels[0], "step on a slice of a larger block wrote outside the slice")
+            labels.append("views")
     want, info = advect.poloidal_step_ref(f0, Cphi, sref, theta, rpts, dt, c["v"], c["B0"], cd, c["nul"],
                                           explicit=c["explicit"], tol=c["tol"])
     tol, (gq, gr) = tolerances(c, sref, Cphi, info["Cf"], f0, dt, theta, rpts)
